@@ -355,6 +355,25 @@ def decodeHSMSPayload (payload : Bytes) : Except FErr Msg :=
   else if payload.length > maxMsgLen then .error .lenBig
   else decodeOwnedFrame payload
 
+/-- The length gate of `DecodeHSMSMessage` (everything before `decodeOwnedFrame`): the owned `[header ‖ body]`
+    bytes, or the reason the frame is refused.  `decodeHSMSMessage` is this gate followed by
+    `decodeOwnedFrame` (`decodeHSMSMessage_guard`, Lemmas/HsmsGen); the translation of that part of the Go
+    function is tied to it in Props/C03 and C04. -/
+def frameGuard (data : Bytes) : Except FErr Bytes :=
+  if lenLt data 14 then .error .tooShort
+  else
+    let msgLen := beVal (data.take 4)
+    if msgLen < 10 then .error .lenSmall
+    else if msgLen > maxMsgLen then .error .lenBig
+    else if (data.drop 4).length != msgLen then .error .mismatch
+    else .ok (data.drop 4)
+
+/-- The gate of `DecodeHSMSPayload` / `DecodeOwnedHSMSPayload`. -/
+def payloadGuard (payload : Bytes) : Except FErr Unit :=
+  if lenLt payload 10 then .error .tooShort
+  else if payload.length > maxMsgLen then .error .lenBig
+  else .ok ()
+
 /-- `(*DataMessage).Equal`: identical header and both bodies decode to `secs2.Equal` items. -/
 def DataMsg.equal (a b : DataMsg) : Bool :=
   a.hdr == b.hdr &&
